@@ -319,3 +319,42 @@ Proof.
   cbn [tr_lit tr_scalar_r ValidatorModel.scalar_accepts ValidatorModel.refine_ok scalar_literal Ast.v_kind existsb Ast.vkind_eqb orb andb].
   destruct (dt s); reflexivity.
 Qed.
+
+(** ** generic in the image of the scalar kinds *)
+Definition leaves_agree_g (ts : scalar_kind -> Ast.scalar) (E : env) (dt : bytes -> option bytes) : Prop :=
+  forall n k l, aget n E = Some (TScalar k) -> (forall v, l <> LVar v) -> l <> LNull ->
+    ValidatorModel.scalar_accepts (ts k) (tr_lit l) = match scalar_literal dt k l with Some _ => true | None => false end.
+
+Lemma tr_tdef_g_kind td : tr_tdef_g tr_scalar td = tr_tdef td.
+Proof. destruct td; reflexivity. Qed.
+Lemma tr_env_g_kind E : tr_env_g tr_scalar E = tr_env E.
+Proof.
+  unfold tr_env_g, tr_env.
+  assert (X : forall l : env, map (fun p : name * tdef => (fst p, {| Ast.t_req := []; Ast.t_body := tr_tdef_g tr_scalar (snd p) |})) l
+              = map (fun p : name * tdef => (fst p, {| Ast.t_req := []; Ast.t_body := tr_tdef (snd p) |})) l).
+  { intro l. apply map_ext. intros [n td]. cbn [fst snd]. rewrite tr_tdef_g_kind. reflexivity. }
+  rewrite X. reflexivity.
+Qed.
+Lemma tr_request_schema_g_kind E sf argdefs : tr_request_schema_g tr_scalar E sf argdefs = tr_request_schema E sf argdefs.
+Proof. unfold tr_request_schema_g, tr_request_schema. rewrite tr_env_g_kind. reflexivity. Qed.
+Lemma leaves_agree_g_kind E dt : leaves_agree E dt -> leaves_agree_g tr_scalar E dt.
+Proof. intros H. exact H. Qed.
+
+(** with the refined images every scalar kind but Float agrees outright *)
+Lemma leaves_agree_r E dt : (no_float E = true \/ float_leaves_agree dt) -> leaves_agree_g (tr_scalar_r dt) E dt.
+Proof.
+  intros HF n k l Hn NV NN. pose proof (aget_In _ _ _ Hn) as Hin.
+  destruct k.
+  - destruct l; try reflexivity; try (exfalso; (apply NN; reflexivity) || (eapply NV; reflexivity)).
+    cbn [tr_lit tr_scalar_r tr_scalar ValidatorModel.scalar_accepts scalar_literal]. rewrite int32_dec. destruct (int32_ok z); reflexivity.
+  - destruct HF as [HF|HF].
+    + unfold no_float in HF. rewrite forallb_forall in HF. specialize (HF _ Hin). discriminate.
+    + apply HF; auto.
+  - destruct l; try reflexivity; exfalso; (apply NN; reflexivity) || (eapply NV; reflexivity).
+  - destruct l; try reflexivity; exfalso; (apply NN; reflexivity) || (eapply NV; reflexivity).
+  - destruct l; try reflexivity; try (exfalso; (apply NN; reflexivity) || (eapply NV; reflexivity)).
+    cbn [tr_lit tr_scalar_r tr_scalar ValidatorModel.scalar_accepts scalar_literal]. rewrite int64_dec. destruct (int64_ok z); reflexivity.
+  - apply datetime_leaf; auto.
+  - apply longint_leaf; auto.
+  - destruct l; try reflexivity; exfalso; (apply NN; reflexivity) || (eapply NV; reflexivity).
+Qed.
